@@ -62,6 +62,9 @@ func (s *c19Script) ServeHTTP(rw http.ResponseWriter, req *http.Request) {
 		rw.Header().Set("Content-Type", ctype)
 	}
 
+	// the server closes the connection, so that the sockets left in TIME-WAIT do not occupy ephemeral ports
+	rw.Header().Set("Connection", "close")
+
 	rw.WriteHeader(status)
 	rw.Write(body) //nolint:errcheck
 }
@@ -187,7 +190,15 @@ func c19LatinBytes(s string) []byte {
 func c19SetupRemote() {
 	env := &c19Remote
 	env.script = &c19Script{status: http.StatusOK}
-	env.srv = httptest.NewServer(env.script)
+	ln, err := c19Listen()
+	if err != nil {
+		env.err = err
+
+		return
+	}
+
+	env.srv = &httptest.Server{Listener: ln, Config: &http.Server{Handler: env.script}} //nolint:gosec
+	env.srv.Start()
 
 	file, err := os.CreateTemp("", "verif-c19-remote-*.yaml")
 	if err != nil {
@@ -369,7 +380,7 @@ func c19SetupRaw() {
 		return
 	}
 
-	ln, err := net.Listen("tcp", "127.0.0.1:0")
+	ln, err := c19Listen()
 	if err != nil {
 		c19Raw.err = err
 
@@ -385,12 +396,29 @@ func c19SetupRaw() {
 }
 
 func c19SendRaw(addr string, raw []byte) string {
-	conn, err := net.DialTimeout("tcp", addr, c19WaitLimit)
+	var (
+		conn net.Conn
+		err  error
+	)
+
+	// dialing can fail for want of a free ephemeral port (see c19Listen)
+	for attempt := 0; attempt < 150; attempt++ {
+		if conn, err = net.DialTimeout("tcp", addr, c19WaitLimit); err == nil {
+			break
+		}
+
+		time.Sleep(200 * time.Millisecond)
+	}
+
 	if err != nil {
 		return "unreachable"
 	}
 
 	defer conn.Close()
+
+	if tcp, ok := conn.(*net.TCPConn); ok {
+		tcp.SetLinger(0) //nolint:errcheck // no TIME-WAIT on this side
+	}
 
 	conn.SetDeadline(time.Now().Add(c19WaitLimit)) //nolint:errcheck
 	conn.Write(raw)                                //nolint:errcheck
